@@ -670,20 +670,25 @@ fn main() {
         (_, false) => 90,
         (_, true) => 1200,
     };
-    for _ in 0..cases {
+    // directed shape `epoch-boundary` (every focus, own random stream): chains that cross an epoch boundary
+    let nboundary = if args.thorough { 40 } else { 6 };
+    let mut erng = Rng::new(args.seed ^ 0xE90C_B0DA);
+    for ci in 0..nboundary + cases {
+        let boundary = ci < nboundary;
+        let rng = if boundary { &mut erng } else { &mut rng };
         let n = match rng.below(10) { 0 => 1, 1 => 2, 2 => 3, 3..=6 => rng.range(4, 8) as usize, 7..=8 => rng.range(9, 14) as usize, _ => rng.range(15, 24) as usize };
-        let (stakes, shape) = stake_shape(&mut rng, n);
+        let (stakes, shape) = stake_shape(rng, n);
         let own = rng.below(n as u64) as usize;
         let mut sim = Sim::new(&keys, stakes.clone(), own);
         run.class = 0;
         run.dead = false;
         run.safety_panic = false;
-        let plan = match focus.as_str() {
+        let plan = if boundary { "epoch-boundary" } else { match focus.as_str() {
             "C04" => *rng.pick(&["conflicts", "legit", "mixed"]),
             "C06" => *rng.pick(&["s2n", "s2n", "s2s", "mixed"]),
             "C18" => *rng.pick(&["chain", "chain", "mixed"]),
             _ => *rng.pick(&["quorums", "quorums", "mixed", "chain", "s2n"]),
-        };
+        } };
         run.rec.begin_case(&format!("{plan}/{shape}/n{n}"));
         run.rec.step(&format!("epoch {} {}", own, stakes.iter().map(|s| s.to_string()).collect::<Vec<_>>().join(" ")), &format!("epoch n={} total={}", n, sim.total));
         // C18: every case is afterwards replayed against a tiny, lagging queue towards Votor
@@ -693,7 +698,7 @@ fn main() {
             run.evlog.clear();
             Some((brng.range(1, 2) as usize, *brng.pick(&[0usize, 2, 40, 1000]), brng.range(1, 3) as usize))
         } else { None };
-        gen_case(&mut run, &mut sim, &mut rng, plan);
+        if boundary { gen_boundary_case(&mut run, &mut sim, rng); } else { gen_case(&mut run, &mut sim, rng, plan); }
         if let Some((cap, start_lag, lag)) = bp { run.replay_backpressure(&sim, cap, start_lag, lag); }
         let class = run.class;
         run.rec.end_case(class, true);
@@ -715,6 +720,54 @@ fn subset_reaching(sim: &Sim, rng: &mut Rng, num: u64) -> Vec<usize> {
     }
     out.sort();
     out
+}
+
+/// Progress across an epoch boundary (C02: "every correct node's highest finalized slot keeps advancing", also in the
+/// last window of an epoch).  The node catches up to a finalized slot just below a multiple of SLOTS_PER_EPOCH by a
+/// received fast-finalization certificate (as after a standstill bundle); then for each following slot, into the next
+/// epoch, a block is registered and the messages that finalize it arrive in random order: notarization votes of >= 80 %
+/// of the stake, or notarization + finalization votes of >= 60 % each, or the certificates themselves.  All of them lie
+/// far inside the admission window (finalized + 2 * SLOTS_PER_EPOCH), so after the messages of slot s the pool's
+/// finalized slot must be >= s.  Every step is also replayed on the Lean model like any other case.
+fn gen_boundary_case(run: &mut Run, sim: &mut Sim, rng: &mut Rng) {
+    let e = alpenglow::types::SLOTS_PER_EPOCH;
+    // (not below 2 * SLOTS_PER_EPOCH: finalizing beyond it runs into the known finding D17 at every recovery)
+    let start = match rng.below(3) { 0 => e - 1, 1 => e - 2, _ => e - 1 - rng.below(8) };
+    let a = subset_reaching(sim, rng, 4);
+    run.cert(sim, CK::Ff, start, 1, &a, &[]);
+    let fin0 = sim.pool.finalized_slot().inner();
+    run.rec.oracle(run.dead || fin0 == start, "c02-catch-up-refused", || format!("epoch-boundary: a fresh pool that receives a fast-finalization certificate for slot {start} (< 2 * SLOTS_PER_EPOCH) reports finalized slot {fin0}"));
+    let k = rng.range(2, 8);
+    let mut parent = (start, 1usize);
+    for i in 0..k {
+        let (s, h) = (start + 1 + i, 2 + i as usize);
+        run.block(sim, (s, h), parent);
+        let mode = rng.below(4);
+        let mut msgs: Vec<(K, usize)> = Vec::new();
+        match mode {
+            0 => { for v in subset_reaching(sim, rng, 4) { msgs.push((K::Notar, v)); } }
+            1 | 2 => { for v in subset_reaching(sim, rng, 3) { msgs.push((K::Notar, v)); } for v in subset_reaching(sim, rng, 3) { msgs.push((K::Final, v)); } }
+            _ => {}
+        }
+        rng.shuffle(&mut msgs);
+        for (kd, v) in msgs { run.vote(sim, kd, s, h, v, true); }
+        if mode == 3 {
+            if rng.chance(1, 2) {
+                let a = subset_reaching(sim, rng, 4);
+                run.cert(sim, CK::Ff, s, h, &a, &[]);
+            } else {
+                let (a, b) = (subset_reaching(sim, rng, 3), subset_reaching(sim, rng, 3));
+                if rng.chance(1, 2) { run.cert(sim, CK::Notar, s, h, &a, &[]); run.cert(sim, CK::Final, s, 0, &b, &[]); } else { run.cert(sim, CK::Final, s, 0, &b, &[]); run.cert(sim, CK::Notar, s, h, &a, &[]); }
+            }
+        }
+        let fin = sim.pool.finalized_slot().inner();
+        run.rec.count(&format!("epoch-boundary:{}", if s % e < 4 { "slot-in-first-window-of-epoch" } else { "slot-before-boundary" }));
+        run.rec.oracle(run.dead || fin >= s, "c02-quorum-not-finalized", || format!("epoch-boundary: finalized slot {} after the {} for block ({s},{h}) on ({},{}) were delivered (catch-up slot {start}, SLOTS_PER_EPOCH {e}): the finalized slot must advance to {s}",
+            fin, ["notarization votes of >= 80 % of the stake", "notarization and finalization votes of >= 60 % each", "notarization and finalization votes of >= 60 % each", "finalizing certificate(s)"][mode as usize], parent.0, parent.1));
+        parent = (s, h);
+        if rng.chance(1, 6) { run.recover(sim); }
+    }
+    run.recover(sim);
 }
 
 fn gen_case(run: &mut Run, sim: &mut Sim, rng: &mut Rng, plan: &str) {
